@@ -362,6 +362,7 @@ def evaluate(pid, d, scs, traces, want_conformance=True):
         conf = [t for t in traces if bysid[t[0]]["driver"] != "memory"]
         acc, div, states = vlib.validate_traces(d, conf)
         res["accepted"] = len(acc)
+        res["accepted_ids"] = acc
         res["divergences"] = [(sid, within, ev) for sid, within, ev in div]
         res["states"] += states
     viols, mstates = vlib.monitor(d, traces)
@@ -379,6 +380,48 @@ def evaluate(pid, d, scs, traces, want_conformance=True):
         else:
             res["violations"].append(v)
     return res
+
+
+def binding_self_test(d, scs, traces, accepted):
+    """the two verdict channels must bind: a trace that the specification accepted is (a) corrupted in one logged
+    field, (b) robbed of one call event - both must be REJECTED by trace validation - and (c) given an end state with
+    two deployed revisions, which the monitor must report. Anything else means the machinery is vacuous: exit 2."""
+    bysid = {s["id"]: s for s in scs}
+    acc = set(accepted)
+    pick = None
+    for sid, evs in traces:
+        if sid not in acc or bysid[sid]["driver"] == "memory":
+            continue
+        ups = [i for i, e in enumerate(evs) if e["ev"] == "call" and e["kind"] == "store" and e["verb"] == "update" and e["ok"]
+               and e["state"]["store"].get(str(e["rev"]), {}).get("st") == "deployed"]
+        posts = [i for i, e in enumerate(evs) if e["ev"] == "call" and e["kind"] == "res" and e["verb"] == "POST" and e["ok"]]
+        if ups and posts and evs[-1]["ev"] == "end" and len(evs[-1]["state"]["store"]) >= 2:
+            pick = (sid, evs, ups[0], posts[0])
+            break
+    if pick is None:
+        return dict(ran=False, reason="no accepted trace with an update-to-deployed, a create and two revisions")
+    sid, evs, iu, ip = pick
+    a = json.loads(json.dumps(evs))
+    a[iu]["state"]["store"][str(a[iu]["rev"])]["st"] = "failed"          # (a) one logged status is wrong
+    b = json.loads(json.dumps(evs))
+    del b[ip]                                                            # (b) one call is missing
+    c = json.loads(json.dumps(evs))
+    for r in c[-1]["state"]["store"].values():                           # (c) an end state the property forbids
+        r["st"] = "deployed"
+        if "label" in r:
+            r["label"] = "deployed"
+    sd = vlib._subdir(d, "selftest")
+    out = {}
+    for name, tr in (("corrupted_field", a), ("dropped_event", b)):
+        acc2, div2, _ = vlib.validate_traces(sd, [(sid, tr)])
+        out[name + "_rejected"] = not acc2
+    viols, _ = vlib.monitor(sd, [(sid, c)])
+    out["forbidden_state_reported"] = any(v[0] == "C01_OneDeployed" for v in viols)
+    out["ran"] = True
+    out["scenario"] = describe(bysid[sid])
+    if not (out["corrupted_field_rejected"] and out["dropped_event_rejected"] and out["forbidden_state_reported"]):
+        raise Inconclusive("binding self-test failed (%s): the specification does not bind the traces" % out)
+    return out
 
 
 def run(pid, tier, seed, replay=None):
@@ -529,6 +572,7 @@ def run(pid, tier, seed, replay=None):
 
     # 5-6. conformance and verdict
     res = evaluate(pid, d, scs, traces)
+    selftest = binding_self_test(d, scs, traces, res.get("accepted_ids", []))
     bysid = {s["id"]: s for s in scs}
 
     # fault plans must have hit a call (a dead plan would make fault coverage vacuous)
@@ -584,6 +628,7 @@ def run(pid, tier, seed, replay=None):
         "schedules_not_followed_by_the_real_code": sched_div,
         "fault_sweep_scenarios_every_call_position": sweep_n,
         "pinned_regression_scenarios": reg_n,
+        "binding_self_test": selftest,
         "scenarios_from_exhaustive_enumeration_of_short_operation_sequences": enum_n,
         "race_detector": race,
         "evaluations": len(scs), "distinct_nontrivial": distinct_end,
